@@ -97,3 +97,4 @@ fn node_setters_frame() {
 
 // No Arena harness: even a 5-node concrete arena (Vec<GraphNode> with the Table/Raw/Reference payload
 // variants in the enum) did not leave CBMC in 5 minutes; delete_branch/set_node are covered by Verus only.
+
